@@ -22,6 +22,9 @@ def run(ctx):
     q = ctx.quick
     sims = [("Sim_IndexFresh.cfg", 40 if q else 600, 10), ("Sim_IndexAll.cfg", 50 if q else 800, 12)]
     res = ic.tour(ctx, sims, {"idempotence": True, "rebuild": False}, cats, "C05")
+    # two pages with the same base name in different directories (processing order between them is free)
+    res += ic.tour(ctx, [("Sim_IndexTwin.cfg", 15 if q else 300, 10)],
+                   {"idempotence": True, "rebuild": False, "names": {1: "work/journal.zo", 2: "home/journal.zo"}}, cats, "C05")
     for x in res[:2]:
         ctx.sample({"behaviour": x["actions"], "commands": x["commands"]})
     ic.finish(ctx, "behaviours = random walks of the TLC simulator over Index.tla (3 pages in two directories, <=3 notes each, long "
